@@ -194,7 +194,12 @@ def entity_reader(
         num_tagged_fields = readers.read_unsigned_varint(buffer)
         for _ in range(num_tagged_fields):
             field_tag = readers.read_unsigned_varint(buffer)
-            readers.read_unsigned_varint(buffer)  # field length
+            field_length = readers.read_unsigned_varint(buffer)
+            # Skip tagged fields unknown to this schema version, they are allowed
+            # for forward compatibility, see KIP-482.
+            if field_tag not in tagged_field_readers:
+                readers.read_exact(buffer, field_length)
+                continue
             field, field_reader, _ = tagged_field_readers[field_tag]
             tagged_field_values[field.name] = field_reader(buffer)
 
